@@ -490,12 +490,27 @@ def gen_views(rng, profile):
             doc[rng.choice(gen.KEYS)] = mixed
         else:
             doc[rng.choice(gen.KEYS)] = rng.choice([[], [1, 2, 3], [0, "", None, 2.5, {"a": 1}], [3, 1, 2, 0, 5]])
+    script = []
+    if profile == "listview" and isinstance(doc, dict) and rng.random() < 0.12:
+        # a live iterator of a view whose converter raises on part of the elements: the iterator is used again
+        # after each failure (it has advanced; it is not finished)
+        key = rng.choice(gen.KEYS)
+        doc[key] = [rng.choice([1, "s", 2.5, "t", None, "u", [1]]) for _ in range(rng.randint(3, 6))]
+        script = [["l.new", 0, [[key, None]], "boom"], ["l.it.new", 0, 0]] + [["l.it.next", 0] for _ in range(rng.randint(3, 7))]
+        if rng.random() < 0.5:
+            script.insert(rng.randint(2, len(script)), rng.choice([["l.append", 0, ["new", "z"]], ["l.del", 0, 0], ["l.iter", 0]]))
     sc = {"fam": "m", "doc": enc(doc), "ops": []}
     live, its = set(), set()
+    if script:
+        live.add(0)
+        its.add(0)
     shadow = copy.deepcopy(doc)
     from observe import final_doc
-    for _ in range(rng.randint(2, 12)):
-        op = gen_descr_op(rng, shadow) if profile == "descr" else gen_list_op(rng, shadow, live, its)
+    for _ in range(max(rng.randint(2, 12), len(script))):
+        if script:
+            op = script.pop(0)
+        else:
+            op = gen_descr_op(rng, shadow) if profile == "descr" else gen_list_op(rng, shadow, live, its)
         sc["ops"].append(op)
         try:
             after = final_doc(sc)
